@@ -541,3 +541,42 @@ def _mutation_chain(E, prog, f, param: str, depth: int = 0) -> str:
                     if q in E.summary(callee):
                         return f"{f.qualname.split('.')[-1]} → " + _mutation_chain(E, prog, callee, q, depth + 1)
     return "; ".join(reasons)
+
+
+def backward_covers_every_qubit(ctx) -> None:
+    """EvolveStateVector.backward fills one gradient entry per qubit (per pair for the interaction matrix): the loops
+    run over range(nqubits) with nqubits = len(omegas) — a loop over a subset (driven qubits, non-zero phases …) leaves
+    the skipped entries at zero although ∂L/∂Ω_k ≠ 0 where Ω_k = 0."""
+    prog = ctx.prog
+    K = prog.cls("emu_sv.time_evolution.EvolveStateVector")
+    bwd = K.methods["backward"]
+    loops = [n for n in util.walk_own(bwd.node) if isinstance(n, ast.For)]
+    ctx.require(len(loops) >= 4, f"AUTOGRAD-cover: {len(loops)} loops in backward, 5 confirmed by hand")
+    saved = None
+    for st in ast.walk(bwd.node):
+        if isinstance(st, ast.Assign) and util.text(st.value).endswith("saved_tensors") and isinstance(st.targets[0], ast.Tuple):
+            saved = [t.id for t in st.targets[0].elts if isinstance(t, ast.Name)]
+    ctx.require(saved, "AUTOGRAD-cover: saved_tensors unpacking not found")
+    first = saved[0]
+    full = {f"range(len({first}))", f"range({first}.shape[0])", f"range({first}.numel())"}
+    bad = []
+    for lp in loops:
+        it = util.text(util.inline_locals(bwd, lp.iter)).replace(" ", "")
+        outer = [o for o in loops if o is not lp and any(x is lp for x in ast.walk(o))]
+        if outer:
+            i = outer[0].target.id if isinstance(outer[0].target, ast.Name) else "?"
+            ok = it in {f"range({i}+1,len({first}))", f"range({i}+1,{first}.shape[0])"}
+        else:
+            ok = it in full
+        filt = any(isinstance(x, (ast.Continue, ast.Break)) for st in lp.body for x in ast.walk(st))
+        # ∂H/∂φ_k carries the factor Ω_k: restricting the phase loop to the driven qubits changes nothing
+        phase_loop = any(isinstance(x, ast.Call) and util.text(x.func).endswith("DHDPhiSparse") for st in lp.body for x in ast.walk(st))
+        if phase_loop and not ok and not outer and f"{first}.nonzero()" in it and "!" not in it:
+            ok = True
+        if not ok or filt:
+            bad.append(f"line {lp.lineno}: for {util.text(lp.target)} in {util.text(lp.iter, 50)}" + (" with continue/break" if filt else ""))
+    bad.sort()
+    ctx.ob("AUTOGRAD", "gradient loops cover every qubit", bwd.loc(), not bad,
+           f"all {len(loops)} gradient loops run over every qubit (every pair i<j for the interaction matrix)" if not bad else
+           f"backward fills the gradients in a loop over a subset — {bad[0]}: the entries that are skipped stay zero "
+           f"(e.g. the amplitude gradient of an atom whose amplitude is exactly 0)")
